@@ -177,7 +177,7 @@ def run_harness(prop, tier, seed, work, replay):
     return rc == 0, out
 
 
-def compile_tier(prop, seed, work=None):
+def compile_tier(prop, seed, work=None, replay=None):
     """Thorough tier of C01 / C02 / C18 (DESIGN.md 5.4): the harness writes a cargo project with the generated
     modules into a scratch directory outside /repo and /verif, builds it offline, runs the byte vectors and
     removes everything again (here as well, in case the harness is killed).
@@ -191,9 +191,10 @@ def compile_tier(prop, seed, work=None):
     env = dict(os.environ)
     env["VERIF_DIR"] = ROOT
     env["CARGO_NET_OFFLINE"] = "true"
+    cmd = [exe, "compile-tier", str(seed), work, "--parts", COMPILE_TIER_PARTS[prop], "--scratch", os.path.join(scratch, "p")]
+    cmd += ["--replay", replay] if replay else ["--polkadot", "--random", "100"]
     try:
-        rc, out = sh([exe, "compile-tier", str(seed), work, "--parts", COMPILE_TIER_PARTS[prop], "--polkadot",
-                      "--scratch", os.path.join(scratch, "p")], cwd=ROOT, timeout=2400, env=env)
+        rc, out = sh(cmd, cwd=ROOT, timeout=2400, env=env)
     except subprocess.TimeoutExpired:
         rc, out = 124, "compile tier timed out"
     finally:
@@ -254,6 +255,13 @@ def main():
 
     violations = []      # (replay path, suffix)
     notes = []
+    # a replay file written by the compile tier is re-run by the compile tier (any tier)
+    ct_replay = False
+    if replay and prop in COMPILE_TIER_PARTS:
+        try:
+            ct_replay = json.load(open(replay)).get("kind") == "compile-tier"
+        except Exception:
+            ct_replay = False
 
     def write_replay(name, obj):
         p = os.path.join(work, "replay_%s.json" % name)
@@ -298,7 +306,7 @@ def main():
                                            "obligation": "the harness (public API of /repo) no longer builds",
                                            "log_tail": hlog[-4000:]})
         violations.append((p, "no-failing-input-found"))
-    elif ok_coq:
+    elif ok_coq and not ct_replay:
         ok_r, rlog = run_harness(prop, tier, seed, work, replay)
         if not ok_r:
             p = write_replay("harness_run", {"kind": "correspondence-broken",
@@ -374,8 +382,8 @@ def main():
     # ---- 2b. compile tier (thorough, C01 / C02 / C18) --------------------------------
     ct = None
     ct_known = []
-    if tier == "thorough" and prop in COMPILE_TIER_PARTS and ok_h and not replay:
-        ct, ct_log = compile_tier(prop, seed, work)
+    if prop in COMPILE_TIER_PARTS and ok_h and ((tier == "thorough" and not replay) or ct_replay):
+        ct, ct_log = compile_tier(prop, seed, work, replay if ct_replay else None)
         if ct is None:
             p = write_replay("compile_tier", {"kind": "correspondence-broken",
                                               "obligation": "compile tier (vharness compile-tier) did not produce a report",
@@ -417,7 +425,7 @@ def main():
     hyp = {t: len(v) for t, v in tags.items() if t.startswith("hyp_") or t.startswith("known_")}
     obligations = obligations_proof + len(corr_tags)
     discharged = discharged_proof + len([t for t in corr_tags if not tags[t]])
-    if tier == "thorough" and prop in COMPILE_TIER_PARTS and not replay:
+    if prop in COMPILE_TIER_PARTS and ((tier == "thorough" and not replay) or ct_replay):
         obligations += 1
         if ct is not None and not ct.get("failures"):
             discharged += 1
